@@ -713,6 +713,35 @@ fn take_any_char(input: &str) -> Option<(LeftToParse<'_>, char)> {
     input.chars().next().map(|c| (&input[c.len_utf8()..], c))
 }
 
+/// Verification hooks: the slicing / looping combinators of this parser on a few fixed argument
+/// parsers, as plain data (`(left to parse, consumed)`). Compiled only with the
+/// `jeltef_derive_more_verif` cargo feature; never part of a normal build.
+#[cfg(feature = "jeltef_derive_more_verif")]
+pub(crate) mod verif_hooks {
+    use super::{
+        any_char, char, check_char, one_of, str, take_until1, take_while0, take_while1,
+    };
+
+    pub(crate) fn combinator<'i>(name: &str, input: &'i str) -> Option<Option<(&'i str, &'i str)>> {
+        let only_rest = |r: Option<&'i str>| r.map(|r| (r, &input[..0]));
+        Some(match name {
+            "char_brace" => only_rest(char('}')(input)),
+            "char_wide" => only_rest(char('\u{3000}')(input)),
+            "any_char" => only_rest(any_char(input)),
+            "check_ws" => only_rest(check_char(char::is_whitespace)(input)),
+            "str_dollar" => only_rest(str("€$")(input)),
+            "one_of" => only_rest(one_of("{}€")(input)),
+            "tw0_ws" => Some(take_while0(check_char(char::is_whitespace))(input)),
+            "tw0_any" => Some(take_while0(any_char)(input)),
+            "tw1_digit" => take_while1(check_char(|c| c.is_ascii_digit()))(input),
+            "tw1_ws" => take_while1(check_char(char::is_whitespace))(input),
+            "tu1_any_brace" => take_until1(any_char, one_of("{}"))(input),
+            "tu1_ws_wide" => take_until1(check_char(char::is_whitespace), char('\u{3000}'))(input),
+            _ => return None,
+        })
+    }
+}
+
 #[cfg(test)]
 mod tests {
     use super::*;
